@@ -167,7 +167,8 @@ def C09(tier, seed):
     fold = mean_stage("c09fold", "C09", ["C09." + c for c in ("bound_lo", "bound_hi", "sample_mean", "sample_variance", "sample_std_dev",
                                                                  "sample_count", "type.f32", "type.f64", "style.lfold1", "style.rfold1",
                                                                  "style.rfold1_assign", "style.lfold7", "style.rfold7", "style.tree",
-                                                                 "t_branch", "normal_branch")], 1, shards=8)
+                                                                 "t_branch", "normal_branch", "magnitude.tiny", "magnitude.large",
+                                                                 "beyond_f32_count.extend", "beyond_f32_count.tree", "beyond_f32_count.lfold7")], 1, shards=8)
     stages.append(fold)
     stages[0].mc = mc
     stages[0].required |= {"C09.act.add", "C09.act.add_assign"}
@@ -483,7 +484,7 @@ def own_stage(want, trace, req):
 
 def C01(tier, seed):
     st = mean_stage("c01", "C01", arith_req("C01") + ["C01.call_styles_agree", "C01.constant_sample", "C01.style.ci", "C01.style.extend",
-                                                    "C01.style.append", "C01.style.meanci"], 40 if tier == "quick" else 400)
+                                                    "C01.style.append", "C01.style.meanci", "C01.zero_observation", "C01.squares_overflow"], 40 if tier == "quick" else 400)
     st.mc = list(TABLES_MC)
     own = own_stage("M", "Trace_Hook", ["C01.own_tests_kind", "C01.own_tests_bound"])
     return {
